@@ -533,6 +533,12 @@ def gen_op(world: World, rnd, weights: dict, refusal_bias: float = 0.08) -> dict
             break
     if "undo" in weights and world.trace and world.trace[-1]["op"] == "undo" and rnd.random() < 0.4:
         kind = "undo"  # undos come in bursts (several steps back, then a new edit)
+    last = world.trace[-1] if world.trace else None
+    if last is not None and last["op"] == "enable" and "undo" in weights and rnd.random() < 0.3:
+        kind = "undo"  # look at history right after a feature came back (values must be current)
+    if (last is not None and last["op"] == "paint" and "delete_node" in weights and last.get("value")
+            and int(last["value"]) in nodes and rnd.random() < 0.12):
+        return {"op": "delete_node", "node": int(last["value"])}  # delete what was just repainted
     bad = rnd.random() < refusal_bias  # deliberately invalid argument
     tr = world.tracks
     if kind == "add_node":
@@ -716,9 +722,11 @@ def _gen_paint(world, rnd, bad=False) -> dict:
         if rnd.random() < 0.25:
             boxes.append(_rand_box(rnd, world.shape, maxlen=3))
     m = box_mask(world.shape, boxes)
+    if rnd.random() < 0.06 and (seg[t] == 0).any():
+        m = seg[t] == 0  # flood-fill: paint all the background of the frame (no 0 left in it)
     idx = np.nonzero(m)
     r = rnd.random()
-    if r < 0.25:
+    if r < 0.25 and not (m == (seg[t] == 0)).all():
         value = 0
     elif r < 0.6 and in_frame:
         value = _pick(rnd, in_frame)
